@@ -26,6 +26,7 @@ from . import c10_gen
 from .c10_gen import regenerate      # setup.sh regenerates Gen/SamplerGen.v through this name
 
 TEMPS = [0.05, 0.1, 0.5, 1.0, 2.0, 5.0, 20.0]
+COMB_TEMPS = TEMPS + [0.25, 0.9, 1.5, 2.5]      # also non-integer values around 1 (a temperature kept in an integer container would truncate them)
 PRECS = (2, 3, 4, 5, 6, 7, 8, 16)
 KSIZES = (1, 3, 5, 7, 9, 11, 13, 15)
 TOL = Fraction(1, 2 ** 20)
@@ -38,6 +39,18 @@ def f32(x):
     return struct.unpack('f', struct.pack('f', x))[0]
 
 
+NONFINITE = Fraction(1 << 40)      # stands for nan / +-inf in an observation: fails every sentence (not in [0,1], sums are off)
+
+
+def frac(x):
+    """exact rational value of a python / torch float; nan and +-inf become the sentinel NONFINITE (an observation
+    such as a NaN coefficient must reach the oracle, not crash the harness)"""
+    x = float(x)
+    if x != x or x in (float('inf'), float('-inf')):
+        return -NONFINITE if x == float('-inf') else NONFINITE
+    return Fraction(x)
+
+
 def z30(v):
     """value on the 2^-30 grid (coefficients are exact there; noise / observed theta are rounded, 2^-31 << tolerance)"""
     return int(round(Fraction(v) * (1 << 30)))
@@ -45,6 +58,8 @@ def z30(v):
 
 def me30(v):
     """float -> (m, e) with v ~ m * 2^e, 30-bit mantissa"""
+    if v != v or v in (float('inf'), float('-inf')):
+        return (1, 60)
     f, e = math.frexp(v)
     return (int(round(f * (1 << 30))), e - 30)
 
@@ -83,6 +98,14 @@ def pytorch_inference_limit(ex):
         ex = ex.__cause__ or ex.__context__
         seen += 1
     return False
+
+
+def sexp(z):
+    """exp of an implementation-side float argument; non-finite / overflowing arguments give inf (-> me30 sentinel)"""
+    try:
+        return math.exp(z)
+    except (OverflowError, ValueError):
+        return float('inf')
 
 
 def _torch():
@@ -209,10 +232,10 @@ class Obj:
             Tq = frac(Timpl)
             flat = (lambda t: (t.t() if t.dim() == 2 else t).flatten().tolist())
             z = al / Timpl
-            tab.append((Tq, [z30(a_) for a_ in flat(al)], [me30(math.exp(z_)) for z_ in flat(z)]))
+            tab.append((Tq, [z30(a_) for a_ in flat(al)], [me30(sexp(z_)) for z_ in flat(z)]))
             if uses_noise:
                 zg = (al + noise) / Timpl
-                tab.append((Tq, [z30(a_) + z30(n_) for a_, n_ in zip(flat(al), flat(noise))], [me30(math.exp(z_)) for z_ in flat(zg)]))
+                tab.append((Tq, [z30(a_) + z30(n_) for a_, n_ in zip(flat(al), flat(noise))], [me30(sexp(z_)) for z_ in flat(zg)]))
             torch.manual_seed(seed)
             with grad_ctx(op[2] if len(op) > 2 else 'grad'):
                 self.top(self.x)
@@ -252,7 +275,10 @@ def oracle_forward(kind, before, after):
     must_argmax = (not tr) or (hard and name == 'sample_alpha_sm')
     if name == 'sample_alpha_none':
         if not all(is_prob(c) for c in th):
-            fails.append(('disable-sampling:coefficients-not-a-probability-vector', 'theta_alpha after forward is not a probability vector'))
+            # a stand-alone selector CONSTRUCTED with disable_sampling=True never samples (open finding); a whole MPS model
+            # built or switched with disable_sampling=True has sampled at construction and must hold a probability vector
+            fails.append(('disable-sampling:coefficients-not-a-probability-vector' + (':mps-model' if kind == 'mps-model' else ''),
+                          'theta_alpha after forward is not a probability vector' + (' (whole MPS model, sampling disabled through MPS(...) / update_softmax_options)' if kind == 'mps-model' else '')))
         elif must_argmax and [onehot_pos(c) for c in th] != [argmax_first(a) for a in al]:
             fails.append(('disable-sampling:stale-not-onehot-at-argmax', 'theta_alpha after forward is not the one-hot at argmax(alpha)'))
         return fails
@@ -417,6 +443,12 @@ def specs_config(ctx):
                     out.append({'fam': 'config', 'kind': 'comb', 'n': n, 'c': 1, 'ctor': (T, h, g, False), 'alpha': gen_alpha(rng, n, 1),
                                 'mode': 'train' if tr else 'eval', 'ops': [('fwd', rng.randrange(1 << 30))],
                                 'export': rng.random() < (0.35 if ctx.quick else 0.5), 'fresh': True})
+    # combiners at the non-integer temperatures around 1, set through SuperNet.update_softmax_options
+    for T in COMB_TEMPS[len(TEMPS):]:
+        for h, g, tr in itertools.product((False, True), repeat=3):
+            n = rng.randint(2, 8)
+            out.append({'fam': 'config', 'kind': 'comb', 'n': n, 'c': 1, 'ctor': (1.0, h, g, False), 'alpha': gen_alpha(rng, n, 1), 'mode': 'train' if tr else 'eval',
+                        'ops': [('upd', T, None, None, None), ('fwd', rng.randrange(1 << 30), 'grad')], 'export': rng.random() < 0.4, 'fresh': True})
     # forward, then alpha := alpha' with the arg-max moved, then summary()/export() with NO forward in between
     for T in TEMPS:
         for h, g, tr in itertools.product((False, True), repeat=3):
@@ -571,7 +603,7 @@ def specs_random(ctx, count):
             if x < 0.4:
                 ops.append(('fwd', rng.randrange(1 << 30), rng.choice(GRAD_MODES)))
             elif x < 0.7:
-                t = rng.choice([None, None] + TEMPS)
+                t = rng.choice([None, None] + (COMB_TEMPS if kind == 'comb' else TEMPS))
                 if kind == 'comb':
                     ops.append(('upd', t, rng.choice([None, True, False]), None, None))
                 else:
@@ -665,12 +697,12 @@ def exec_model(spec):
             for n_, m in qs.values():
                 b = before[n_]
                 after = dict(b, theta=cols(m.theta_alpha.detach()))
-                for key, what in oracle_forward('layer', b, after):
+                for key, what in oracle_forward('mps-model', b, after):
                     res['fails'].append((key + phase, '%s: %s' % (n_, what), n_))
                 Timpl = m.temperature.item()
                 al = m.alpha.detach()
                 flat = (lambda t: (t.t() if t.dim() == 2 else t).flatten().tolist())
-                tab = [(frac(Timpl), [z30(a_) for a_ in flat(al)], [me30(math.exp(z_)) for z_ in flat(al / Timpl)])]
+                tab = [(frac(Timpl), [z30(a_) for a_ in flat(al)], [me30(sexp(z_)) for z_ in flat(al / Timpl)])]
                 if not (b['name'] == 'sample_alpha_gs' and b['training']):
                     res['samples'].append({'q': n_, 'state': dict(b, gumbel=b['name'] == 'sample_alpha_gs', disabled=b['name'] == 'sample_alpha_none'),
                                            'tab': tab, 'theta': after['theta']})
